@@ -1,5 +1,6 @@
 import Model.ApiConv
 import Model.ApiConvX
+import Model.WireExt
 import Driver.Util
 /-!
   Line protocol of the C18 correspondence run (API <-> native converters).
@@ -546,6 +547,23 @@ def step (s : Unit) (ts : List String) : Unit × List String :=
     match pApiX rest with
     | some (a, []) => (s, [rXFrom (fromApiX a)])
     | _ => (s, ["bad-op"])
+  | ["xdec", h] =>
+    match unhex h with
+    | some b =>
+      match WireExt.decExt b with
+      | .ok e => (s, [s!"ok {rExt e}"])
+      | .other => (s, ["other"])
+      | .err => (s, ["err"])
+    | none => (s, ["bad-op"])
+  | ["xdecs", h] =>
+    match unhex h with
+    | some b =>
+      match WireExt.decExts b with
+      | none => (s, ["err"])
+      | some l => (s, [s!"ok {l.length}" ++ String.join (l.map fun x => match x with
+          | some e => " | " ++ rExt e
+          | none => " | other")])
+    | none => (s, ["bad-op"])
   | "tpath" :: rest =>
     match pTPath rest with
     | some (vrf, del, u) =>
